@@ -8,6 +8,7 @@ import re
 from pathlib import Path
 from typing import Optional, Dict, Set, Tuple
 
+from flipjump.assembler.inner_classes.expr import int_to_str
 from flipjump.fjm import fjm_reader
 from flipjump.interpreter.debugging.user_queries import ask_for_command, show_message
 from flipjump.utils.classes import RunStatistics
@@ -148,7 +149,7 @@ def show_memory_address(
         show_message(
             body_message=f'Reading the variable {user_query}:\n'
             f'memory[{hex(first_address)}, {hex(last_address)})'
-            f' = {value}  (or {hex(value)}).'
+            f' = {int_to_str(value)}  (or {hex(value)}).'
             f'{label_name}',
             title_message='Reading FlipJump Variable',
         )
@@ -247,8 +248,16 @@ class BreakpointHandler:
             variable_type, variable_length, index_string, target = match.groups()
             if variable_length == '':
                 variable_length = '1'
-            index = int(index_string[:-1]) if index_string else 0
-            variable_prefix = (variable_type, int(variable_length), index)
+            try:
+                index = int(index_string[:-1]) if index_string else 0
+                variable_prefix = (variable_type, int(variable_length), index)
+            except ValueError:
+                # python refuses to convert a decimal string of thousands of digits
+                show_message(
+                    body_message=f"Failed, the variable's length/index is too long a number: \"{query[:40]}...\".",
+                    title_message='Invalid variable.',
+                )
+                return
 
         if target in self.label_to_address:
             show_memory_address(variable_prefix, query, self.label_to_address[target], mem, None)
@@ -306,7 +315,7 @@ class BreakpointHandler:
                     show_message(f"skip needs a number (decimal or 0x-hex), got {argument!r}.", 'Debugger')
                     continue
                 if count <= 0:
-                    show_message(f"skip needs a positive count, got {count}.", 'Debugger')
+                    show_message(f"skip needs a positive count, got {int_to_str(count)}.", 'Debugger')
                     continue
                 return ('skip', count)
             elif command in ('c', 'cont', 'continue') and argument is None:
